@@ -897,6 +897,9 @@ func (engine *Engine) readConnBlocking(conn *Conn, parser *Parser, decrease func
 		readBufferPool.Free(pbuf)
 		if !conn.Trasfered {
 			parserCloser.CloseAndClean(err)
+			// Reading has ended (peer closed, keep-alive expired, read error):
+			// nothing else closes the descriptor of a blocking connection.
+			_ = conn.Close()
 		}
 		engine.mux.Lock()
 		switch vt := conn.Conn.(type) {
